@@ -213,6 +213,17 @@ EXTRA4 = {
 for k, v in EXTRA4.items():
     C[k]['text'] += v
 
+EXTRA5 = {
+ 'C03': ' Stored consumer URLs also in 12 forms a URL library would parse and re-serialise differently (upper-case scheme / host, default port, trailing # or ?, raw space and non-ASCII, lower-case escapes, escaped unreserved characters, dot segments, empty port, userinfo, IPv6 zone): Destination = Recipient = the stored string.',
+ 'C06': ' Destination alphabet also contains other spellings of the advertised location (%2F for a path slash, an escaped letter, upper-case host, :443, userinfo, dot segments, padding).',
+ 'C09': ' Structural edit operators also set every attribute to a white-space-only value and to an odd number literal, and every element\'s character data to white space.',
+ 'C12': ' Destination alphabet also contains seven other spellings of the advertised attribute-service location.',
+ 'C15': ' Bodies include requests whose Host header writes tenant a\'s host in upper case (issuer and locations follow THIS request).',
+ 'C16': ' Index SPELLINGS (optional plus sign, leading zeros: 08, 010, 0012, +1, 007 ...): every list of length 2 and 3 over 18 spellings x requested binding absent / unlisted / listed; the reference reads indexes with its own decimal reader.',
+}
+for k, v in EXTRA5.items():
+    C[k]['text'] += v
+
 NOT_YET = {i: 'check not built yet in this revision (planned: see DESIGN.md §5 %s); not claimed until its machinery exists' % i for i in ids}
 
 def main():
